@@ -20,9 +20,13 @@ Three parts, every generated case goes through all of them:
     (markup_abbreviation / emmet.markup.parse / parse_markup_abbreviation + markup_abbreviation) and written SEVERAL times
     (stringify_markup / emmet.markup.stringify / the formatter functions) as haml, pug, slim and html, with one-step calls
     (expand / expand_markup with a Config object) in between; every writing must show the denoted tree.
+  SNIPPETS (stream C15snip): snippet names (built-in `!!!`, configured snippets resolving to a text-only node or to an element)
+    and written text nodes at every position of generated trees, in particular text-only nodes that are PARENTS (a snippet name
+    followed by `>`); oracle_snip judges every element's own line, depth and head and the tree read off the indentation.
   REPLAYS: a reported input is re-run in a fresh process; when it fails only after earlier calls of the stream, those
     calls are stored with it (settle_replays) and replay() performs them first.
 """
+import copy
 import json
 import os
 import re
@@ -207,6 +211,8 @@ def recover_tree(out, syntax, indent):
 
 
 def oracle(abbr, cfg, meta, r):
+    if meta and meta.get('snip'):
+        return oracle_snip(abbr, cfg, meta, r)      # trees with snippet names / text-only nodes: see SNIPS_ON
     if r[0] != 'ok':
         return 'expand did not return a string: %r' % (r,)
     out = r[1]
@@ -1448,6 +1454,293 @@ def gen_tie(ctx):
     return cases
 
 
+# ---------------------------------------------------------------- snippet names and text-only nodes in every position
+# "All abbreviations of the documented grammar": a name of an abbreviation may be a SNIPPET -- a built-in one (the doctype
+# snippet `!!!` of the Emmet cheat sheet) or one of the configuration's `snippets` section -- and a snippet may resolve to a
+# text-only node `{...}` or to another element.  Unlike a text written in braces (after which `>` continues on the same
+# level), a snippet name followed by `>` makes the text-only node the PARENT of what follows: the only way a text-only
+# node gets children.  This stream puts such names (and written `{text}` nodes) at every position of generated trees: as
+# the first node of the abbreviation, as parent of ONE child, of several, of a group, of a chain, as first / middle / last
+# child of an element, as sibling, repeated, inside repeated groups, text under text.
+# What the statement settles for these trees (and all the oracle asks): every ELEMENT has a line of its own, in document
+# order, indented by its depth in the denoted tree (a text-only node is a node of that tree: its children are one level
+# deeper than it is), the line starts with the element's head; the element tree read off the indentation is the element
+# tree of the HTML output.  How the text of a text-only node itself is laid out is not settled and not judged (in this
+# library it is glued to the end of the preceding line); to keep every element line readable in pug/slim (no name mark)
+# a text that begins with a name character is only put at the very start of the abbreviation, unrepeated.
+SNIPS_ON = True
+# OFF: judging the last clause (tree read off the indentation = tree of the HTML output) on trees where a text-only node
+# WITH children follows an element on its level (`div+note>span`, `div>p^note>span`).  On the unchanged library the text is
+# glued to the end of the preceding element's line and its children, one level deeper, then read as children of that
+# element (`div (note)\n\tspan `) while the HTML output has them as siblings: a finding on the clean tree, reported, not
+# listed.  Everything else (own line, depth, head of every element) is judged on these trees too.
+SNIP_TREE_CLAUSE_WHEN_TEXT_PARENT_FOLLOWS_ELEMENT = False
+# configuration snippets: key -> text of the text-only node it resolves to (snippet body `{text}`)
+TEXT_SNIPPETS = {'note': '(note)', 'todo': '[x] done', 'sep': '~ sep ~', 'cmt': '<!-- c -->', 'two': '(a)\n(bb)',
+                 'three': '[1]\r\n[22]\n[333]', 'fill': '(${1:fill})', 'stop': '(${0})', 'word': 'NOTE', 'w2': 'see below'}
+GLUE_SAFE = [k for k, v in sorted(TEXT_SNIPPETS.items()) if not NAME_RE.match(v)]       # usable at any position
+START_ONLY = [k for k, v in sorted(TEXT_SNIPPETS.items()) if NAME_RE.match(v)] + ['!!!', '!!!']   # only as very first node
+# configuration snippets that resolve to one element: key -> (body, name, classes)
+ALIAS_SNIPPETS = {'card': ('section.card', 'section', ['card']), 'art': ('article', 'article', []), 'bx': ('div.bx', 'div', ['bx'])}
+WRITTEN_TEXTS = ['(t)', '[w] x', '"q"', '@a b', '(l1)\n(l2)', '(${1:f})']
+SNIP_TEXT_CH = 'abcxyzTQ09 '
+
+
+class Snip(g.El):
+    """a unit of a statement that is a snippet name or a written text: kind 'text' (text-only node) or 'alias' (`den`:
+    the element the snippet stands for)"""
+    __slots__ = ('kind', 'den')
+
+    def __init__(self, kind, name=None, text=None, repeat=None, den=None):
+        g.El.__init__(self, name=name, text=text, repeat=repeat)
+        self.kind = kind
+        self.den = den
+
+
+def snip_config(syntax, indent):
+    sn = {k: '{%s}' % v for k, v in TEXT_SNIPPETS.items()}
+    sn.update({k: v[0] for k, v in ALIAS_SNIPPETS.items()})
+    return {'syntax': syntax, 'options': {'output.indent': indent}, 'snippets': sn}
+
+
+def snip_denoted(tree, syntax, d=0, ed=0):
+    """([depth, name, head] of every element, depth counting every node of the tree; [depth, name] counting elements only)"""
+    S = SYN[syntax]
+    els, etree = [], []
+    for name, el, cs, kids in tree:
+        if isinstance(el, Snip) and el.kind == 'text':
+            a, b = snip_denoted(kids, syntax, d + 1, ed)
+        else:
+            den = el.den if isinstance(el, Snip) else el
+            nm = den.name if isinstance(el, Snip) else name
+            els.append([d, nm, head_of(nm, den, S)])
+            etree.append([ed, nm])
+            a, b = snip_denoted(kids, syntax, d + 1, ed + 1)
+        els.extend(a)
+        etree.extend(b)
+    return els, etree
+
+
+def has_element(tree):
+    return any(not (isinstance(el, Snip) and el.kind == 'text') or has_element(kids) for _, el, _, kids in tree)
+
+
+def text_parent_follows_element(tree):
+    """some text-only node that has element descendants stands after an element (or after a node holding one) of its level"""
+    seen = False
+    for name, el, cs, kids in tree:
+        is_text = isinstance(el, Snip) and el.kind == 'text'
+        if is_text and seen and has_element(kids):
+            return True
+        if text_parent_follows_element(kids):
+            return True
+        seen = seen or not is_text or has_element(kids)
+    return False
+
+
+def read_element_lines(out, syntax, indent, vocab):
+    """(depth, name, line without its indentation) of every line that is an element line: haml `%name` / `.c` / `#i`;
+    pug, slim: a name of the vocabulary / `.c` / `#i` at the start of the line.  Lines of multi-line text are skipped."""
+    res = []
+    pre = SYN[syntax]['before_name']
+    for line in out.split('\n'):
+        d = 0
+        if syntax == 'haml' and line.endswith(' |'):
+            continue
+        while line.startswith(indent):
+            line = line[len(indent):]
+            d += 1
+        if syntax != 'haml' and line[:1] == '|':
+            continue
+        if line[:1] in ('.', '#'):
+            res.append((d, 'div', line))
+            continue
+        if not line.startswith(pre):
+            continue
+        m = NAME_RE.match(line, len(pre))
+        if m and (pre or m.group(0) in vocab):
+            res.append((d, m.group(0), line))
+    return res
+
+
+def oracle_snip(abbr, cfg, meta, r):
+    if r[0] != 'ok':
+        return 'expand did not return a string: %r' % (r,)
+    out = r[1]
+    syntax = cfg['syntax']
+    indent = cfg['options']['output.indent']
+    exp = meta['snip']['elems']
+    got = read_element_lines(out, syntax, indent, set(meta['snip']['vocab']))
+    gd = [[d, nm] for d, nm, _ in got]
+    ed = [[d, nm] for d, nm, _ in exp]
+    if gd != ed:
+        k = 0
+        while k < min(len(gd), len(ed)) and gd[k] == ed[k]:
+            k += 1
+        return ('element lines (depth, name) read off the output differ from the elements of the denoted tree at element %d: '
+                'output has %r, tree has %r (all element lines %r, all elements %r)' % (
+                    k, gd[k] if k < len(gd) else None, ed[k] if k < len(ed) else None, gd[:12], ed[:12]))
+    for (d, nm, line), (_, _, head) in zip(got, exp):
+        if not line.startswith(head):
+            return 'the line of element %r at depth %d is %r, it does not start with the denoted head %r' % (nm, d, line, head)
+    if meta['snip'].get('follows') and not SNIP_TREE_CLAUSE_WHEN_TEXT_PARENT_FOLLOWS_ELEMENT:
+        return None
+    # element tree read off the indentation (parent = nearest element line above with a smaller indentation)
+    stack, itree = [], []
+    for d, nm, _ in got:
+        while stack and stack[-1] >= d:
+            stack.pop()
+        itree.append((len(stack), nm))
+        stack.append(d)
+    if itree != [tuple(x) for x in meta['snip']['etree']]:
+        return 'element tree read off the indentation %r differs from the element tree of the abbreviation %r' % (itree[:12], meta['snip']['etree'][:12])
+    hcfg = {'syntax': 'html', 'options': {'output.indent': indent, 'output.selfClosingStyle': 'xhtml'}, 'snippets': dict(cfg.get('snippets') or {})}
+    h = impl_expand(abbr, hcfg)
+    if h[0] != 'ok':
+        return 'html expand failed: %r' % (h,)
+    htree, depth = g.html_preorder(h[1])
+    if depth != 0:
+        return 'unbalanced tags in HTML output %r' % h[1]
+    if itree != htree:
+        return 'element tree read off the indentation %r differs from the tree of the HTML output %r' % (itree[:12], htree[:12])
+    return None
+
+
+def snip_text(rng, multiline):
+    k = rng.choice([2, 3]) if multiline else 1
+    return '\n'.join(rand_word(rng, 'abcxyzTQ', SNIP_TEXT_CH, 1, 8).rstrip() for _ in range(k))
+
+
+def snip_decorate(rng, el):
+    if rng.random() < 0.25:
+        el.classes = rng.sample(IDENT, rng.choice([1, 1, 2]))
+    if rng.random() < 0.12:
+        el.id = rng.choice(IDENT)
+    if rng.random() < 0.1:
+        el.name = 'div'
+    if rng.random() < 0.15:
+        el.attrs = rand_attrs(rng)
+    c = rng.random()
+    if c < 0.12:
+        el.text = snip_text(rng, False)
+    elif c < 0.2:
+        el.text = snip_text(rng, True)
+
+
+def snip_unit(rng, el, op, start):
+    """what replaces element `el` of a generated statement (followed by operator `op`)"""
+    c = rng.random()
+    if start and el.repeat is None:
+        return Snip('text', name=rng.choice(START_ONLY))
+    if c < 0.15:
+        key = rng.choice(sorted(ALIAS_SNIPPETS))
+        body, nm, classes = ALIAS_SNIPPETS[key]
+        return Snip('alias', name=key, repeat=el.repeat, den=g.El(name=nm, classes=classes))
+    if c < 0.3 and op != '>':
+        return Snip('text', name=None, text=rng.choice(WRITTEN_TEXTS), repeat=el.repeat)
+    return Snip('text', name=rng.choice(GLUE_SAFE), repeat=el.repeat)
+
+
+def snip_substitute(rng, stmt, p, top=True, where=None, counter=None):
+    """replace elements of the statement by snippet names / written texts: the k-th element when `where` is k, else each
+    with probability p; the very first node of the abbreviation may become a text that starts with a name character"""
+    counter = counter if counter is not None else [0]
+    out = []
+    for i, (unit, op) in enumerate(stmt):
+        if isinstance(unit, g.Group):
+            unit.items = snip_substitute(rng, unit.items, p, False, where, counter)
+        else:
+            k = counter[0]
+            counter[0] += 1
+            hit = (k == where) if where is not None else rng.random() < p
+            if hit:
+                start = top and i == 0 and rng.random() < (0.5 if where is not None else 0.6)
+                unit = snip_unit(rng, unit, op, start)
+            else:
+                snip_decorate(rng, unit)
+        out.append((unit, op))
+    return out
+
+
+def snip_shape(tree, parent_text=False, buckets=None):
+    """coverage buckets: where the text-only nodes of a denoted tree stand"""
+    buckets = buckets if buckets is not None else set()
+    for name, el, cs, kids in tree:
+        is_text = isinstance(el, Snip) and el.kind == 'text'
+        if is_text:
+            n = len(kids)
+            buckets.add('text-only-node-with-%s' % ('no-child' if n == 0 else 'ONE-child' if n == 1 else 'several-children'))
+            if n == 1 and kids[0][3]:
+                buckets.add('text-only-node-with-ONE-child-that-has-children')
+            if parent_text:
+                buckets.add('text-only-node-under-text-only-node')
+            if cs:
+                buckets.add('text-only-node-repeated')
+        elif isinstance(el, Snip):
+            buckets.add('snippet-for-an-element')
+        snip_shape(kids, is_text, buckets)
+    return buckets
+
+
+def gen_snips(ctx):
+    names = [n for n in g.safe_names() if n not in TEXT_SNIPPETS and n not in ALIAS_SNIPPETS]
+    vocab = sorted(set(names) | {'div'} | {v[1] for v in ALIAS_SNIPPETS.values()})
+    rng = ctx.rng
+    cases = []
+
+    def add(stmt, syntax, indent, bucket):
+        abbr = g.render(stmt)
+        tree = g.unroll(g.denote_stmt(stmt))
+        els, etree = snip_denoted(tree, syntax)
+        cfg = snip_config(syntax, indent)
+        follows = text_parent_follows_element(tree)
+        cases.append((abbr, cfg, {'snip': {'elems': els, 'etree': etree, 'vocab': vocab, 'follows': follows}}))
+        ctx.cover('snippets:last-clause-%s' % ('not-judged(text-only-parent-after-an-element)' if follows and not SNIP_TREE_CLAUSE_WHEN_TEXT_PARENT_FOLLOWS_ELEMENT else 'judged'))
+        ctx.cover('gen:snippets:' + bucket)
+        for b in snip_shape(tree):
+            ctx.cover('snippets:' + b)
+        top = tree[0][1] if tree else None
+        if isinstance(top, Snip) and top.kind == 'text':
+            ctx.cover('snippets:first-node-is-text-only:%s' % ('built-in-doctype-snippet' if top.name == '!!!' else 'configured-snippet' if top.name else 'written'))
+        if len(els) >= 2:
+            ctx.nontrivial((abbr, syntax, indent))
+
+    # exhaustive operator skeletons, every single position replaced in turn
+    k = ctx.seed
+    for n in (1, 2, 3):
+        for st0 in g.enum_stmts(n, names):
+            k += 1
+            if n == 3 and k % (12 if ctx.tier == 'quick' else 1) != 0:
+                continue
+            for where in range(n):
+                st = snip_substitute(rng, copy.deepcopy(st0), 0.0, where=where)
+                add(st, SYNTAXES[(k + where) % 3], INDENTS[(k // 3) % len(INDENTS)], 'skeleton-one-position')
+    # fixed: the doctype snippet and configured snippets as parent of one child / a chain / several, x every syntax and indent
+    for head in ('!!!', 'word', 'note', 'two', 'fill'):
+        for tail in ([('p', '')], [('section', '>'), ('p', '')], [('section', '>'), ('ul', '>'), ('li', '')], [('em', '+'), ('p', '')],
+                     [('section', '>'), ('em', '+'), ('p', '^'), ('q', '')]):
+            for syntax in SYNTAXES:
+                for ind in INDENTS[:4]:
+                    st = [(Snip('text', name=head), '>')] + [(g.El(name=nm), op) for nm, op in tail]
+                    add(st, syntax, ind, 'text-only-snippet-as-root-parent')
+    # random statements
+    for _ in range(900 if ctx.tier == 'quick' else 20000):
+        deep = rng.random() < 0.5
+        st = deep_stmt(rng, names, rng.randint(2, 9)) if deep else g.rand_stmt(rng, names, rng.randint(1, 9), max_depth=3)
+        if g.total_copies(g.unroll(g.denote_stmt(st))) > 150:
+            continue
+        st = snip_substitute(rng, st, rng.choice([0.15, 0.3, 0.5]))
+        add(st, rng.choice(SYNTAXES), rng.choice(INDENTS), 'random-deep' if deep else 'random')
+    return cases
+
+
+def snips_stage(ctx, model):
+    cases = gen_snips(ctx)
+    run_cases(ctx, model, cases, 'C15snip', oracle)
+    attach_meta(ctx, cases)
+    return cases
+
+
 RULE = ('abbreviations generated as an AST (elements with ids, classes, attributes of every value form, single- and multi-line text, '
         'self-closing, nameless elements, groups, repeaters), rendered to text; exhaustive operator skeletons up to the stated size, '
         'every element shape x syntax as leaf/parent/child, random wide and deep statements; x haml/pug/slim x 8 indent strings. '
@@ -1496,7 +1789,26 @@ RULE = ('abbreviations generated as an AST (elements with ids, classes, attribut
         'of every html writing of the same tree object. Non-trivial = a tree of at least two elements written at least twice. '
         'The Coq model has no tree that outlives a call: each writing is compared with the model\'s expand(abbr, configuration of '
         'that writing). A replay of this stream holds the whole call sequence (abbreviation, configurations, steps, denoted '
-        'lines) and is self-contained in a fresh process.')
+        'lines) and is self-contained in a fresh process. '
+        'Snippet names and text-only nodes (stream C15snip, gen:snippets:*, snippets:*): names that are snippets -- the built-in '
+        'doctype snippet `!!!` and snippets of the configuration\'s `snippets` section that resolve to a text-only node (one line, '
+        'several lines, with ${1:field} / ${0}, starting with a name character or not) or to one element (name, name.class, '
+        'div.class) -- and written `{text}` nodes, at every position of generated trees: every single position of the exhaustive '
+        'operator skeletons of 1-2 units (3 units: one twelfth, chosen by the seed, in the quick tier) replaced in turn, fixed root parents (`!!!`/snippet '
+        '> one child / chain / several children) x 3 syntaxes x 4 indent strings, random wide and deep statements with 15-50% of '
+        'the elements replaced; a snippet name followed by `>` makes the text-only node the PARENT of one child, of several, of a '
+        'group or chain; also repeated, inside repeated groups, text-only under text-only, as first/middle/last child. Oracle '
+        '(oracle_snip; denotation from the AST, a text-only node being a node of the tree): the element lines read off the output '
+        '(haml: lines starting `%name`/`.c`/`#i`; pug, slim: lines starting with a name of the generator\'s vocabulary, `.c`, `#i`; '
+        'lines of multi-line text skipped) are, in document order, exactly the elements of the denoted tree at their depths, each '
+        'line starts with the denoted head; the element tree read off the indentation (parent = nearest element line above with a '
+        'smaller indentation) equals the denoted element tree and the tag tree of the HTML output under the same snippets. How the '
+        'text of a text-only node itself is laid out is not judged; a text starting with a name character is generated only as the '
+        'unrepeated first node of the abbreviation (elsewhere it would be glued to a name and make the line unreadable in pug/slim). '
+        'Guarded OFF (SNIP_TREE_CLAUSE_WHEN_TEXT_PARENT_FOLLOWS_ELEMENT): the last clause on trees where a text-only node with '
+        'children follows an element of its level (it fails there on the unchanged library; the other clauses are judged). Nameless '
+        'elements are not generated in this stream (implicit names are another property\'s subject). These cases also go through the '
+        'Coq model (user snippets are part of the encoded configuration).')
 
 
 def spec_stage(ctx, spec, label, cases, impl):
@@ -1571,7 +1883,7 @@ def attach_meta(ctx, cases):
     look = {(a, canon_cfg(c)): m for a, c, m in cases}
     for v in ctx.violations:
         rp = v.get('replay') or {}
-        if rp.get('component') == 'C15' and 'abbr' in rp:
+        if rp.get('component') in ('C15', 'C15snip') and 'abbr' in rp:
             m = look.get((rp['abbr'], canon_cfg(rp['config'])))
             if m is not None:
                 rp['meta'] = m
@@ -1696,6 +2008,12 @@ def run(ctx):
         spec_stage(ctx, spec, 'generated', cases, impl)
         spec_stage(ctx, spec, 'tie_stream', tie, timpl)
         nest_stage(ctx, spec, hsub)
+    if SNIPS_ON:
+        # after everything else, so that the streams above draw the same random numbers as before this stream existed
+        had = len(ctx.violations)
+        scases = snips_stage(ctx, model)
+        if len(ctx.violations) > had:
+            settle_replays(ctx, {'C15snip': scases})
     shown = 0
     for (abbr, cfg, meta), r in zip(cases, impl):
         if shown < 6 and r[0] == 'ok' and len(meta['lines']) >= 4 and '\n' in abbr:
